@@ -52,6 +52,10 @@ func genPacket(r *vlib.R, id uint16, c int, allowBig bool, big bool) []byte {
 		payload = append(payload, r.Bytes(61)...)
 		rep = vlib.Pick(r, []byte{63, 64, 65, 66, 127, 128, 129, 255})
 	}
+	if kind%10 == kWrite9 {
+		// compressible Msg-path reply: uncompressed 12+66k around 4096 (k=61,62,63), far above it with a small packed form
+		rep = vlib.Pick(r, []byte{0, 1, 20, 61, 62, 63, 70, 70, 100, 200, 255})
+	}
 	if kind%10 == kWriteMsg {
 		// the Msg path: 12 + 269*rep bytes, around the drain buffer (8192), the small slab (16382) and 64k
 		rep = vlib.Pick(r, []byte{0, 1, 2, 15, 16, 30, 31, 32, 45, 60, 61, 120, 243, 244, 255})
@@ -174,7 +178,7 @@ func genBoundaryStream(r *vlib.R, drain, delta int, idBase uint16) []byte {
 		s = append(s, frame(scriptedPkt(id, kind, rep, payload))...)
 		held += 2 + 4 + int(rep)*len(payload)
 	}
-	kinds := []byte{kWrite, kLease, kWrite9}
+	kinds := []byte{kWrite, kLease, kWrite}
 	for k, n := 0, 1+r.Intn(3); k < n; k++ {
 		// leave between 30 and 300 bytes for the filler
 		room := drain + delta - held - 2 - 4
@@ -307,10 +311,10 @@ func gen(r *vlib.R, n int, tier string, emit func(string)) {
 	for i := 0; i < rts; i++ {
 		var ks []string
 		for j, k := 0, 4+r.Intn(14); j < k; j++ {
-			ks = append(ks, vlib.Pick(r, []string{"ok", "ok", "hit", "pn", "pn", "nr", "vx", "vx", "vw", "sh"}))
+			ks = append(ks, vlib.Pick(r, []string{"ok", "ok", "hit", "pn", "pn", "nr", "vx", "vx", "vw", "sh", "big", "ck", "lie"}))
 		}
 		if i == 0 {
-			ks = []string{"pn", "pn", "vx", "vx", "ok"}
+			ks = []string{"pn", "pn", "vx", "vx", "ok", "ck", "lie", "big", "big"}
 		}
 		emit(fmt.Sprintf("retain seq %d %s", r.U64()%1000000, strings.Join(ks, ",")))
 		n--
@@ -361,7 +365,7 @@ func gen(r *vlib.R, n int, tier string, emit func(string)) {
 		var os, bs []string
 		for j := range order {
 			os = append(os, fmt.Sprint(order[j]))
-			bs = append(bs, vlib.Pick(r, []string{"ok", "ok", "ok", "ok", "nr", "pn"}))
+			bs = append(bs, vlib.Pick(r, []string{"ok", "ok", "ok", "a70", "a60", "nr", "pn"}))
 		}
 		emit(fmt.Sprintf("doq conn %s %s", strings.Join(os, ","), strings.Join(bs, ",")))
 		n--
